@@ -94,6 +94,8 @@ type runner struct {
 	hist []string
 	served int // requests the current child has answered
 	late   int // children found dead after having answered
+	last   string   // label of the request answered last
+	lateOf []string // labels of requests after whose answer the child died
 }
 
 // do sends one request; if the child dies it is restarted for the next one.
@@ -121,12 +123,12 @@ func (r *runner) do(req *request) (*outcome, error) {
 	r.mu.Lock()
 	defer r.mu.Unlock()
 	out, err := r.doOnce(req)
-	if r.served > 0 && ((err == nil && out.crashed) || err == errChildGone) {
-		// possibly the late death of an earlier request's goroutine: a
-		// crash that belongs to this request recurs on a fresh child
-		if err == errChildGone || out.stage == "start" {
-			r.late++
-		}
+	if err == errChildGone || (err == nil && out.crashed && out.stage == "start" && r.served > 0) {
+		// The child settles after every stage, so it cannot die between two
+		// requests; if it did nevertheless, the death belongs to the request
+		// it answered last.  Report that and run this request on a fresh child.
+		r.late++
+		r.lateOf = append(r.lateOf, r.last)
 		r.served = 0
 		out, err = r.doOnce(req)
 	}
@@ -135,6 +137,7 @@ func (r *runner) do(req *request) (*outcome, error) {
 	} else {
 		r.served = 0
 	}
+	r.last = req.Label
 	return out, err
 }
 
@@ -211,6 +214,29 @@ func (r *runner) doOnce(req *request) (*outcome, error) {
 }
 
 // ------------------------------------------------------------------- checks
+
+// sink collects the verdicts of one job; they are reported in job order after
+// all jobs have run, so that the output of a run does not depend on how the
+// parallel workers interleave.
+type sink struct {
+	acts []func()
+}
+
+func (k *sink) Violate(c *core.Ctx, sig, what string, wit any) {
+	k.acts = append(k.acts, func() { c.Violate(sig, what, wit) })
+}
+
+func (k *sink) drift(e *env, format string, a ...any) {
+	msg := fmt.Sprintf(format, a...)
+	k.acts = append(k.acts, func() { e.drift("%s", msg) })
+}
+
+func (k *sink) flush() {
+	for _, f := range k.acts {
+		f()
+	}
+	k.acts = nil
+}
 
 type env struct {
 	c      *core.Ctx
@@ -403,7 +429,7 @@ func caseShape(cs *Case) string {
 // checkCase runs one exported case at the given scale (1 = as exported;
 // w > 1 = every element repeated w times with token 1 spread over 255
 // distinct values so that columns reach the real dictionary limit).
-func (e *env) checkCase(family string, cs *Case, uniIdx, scale int) error {
+func (e *env) checkCase(sk *sink, family string, cs *Case, uniIdx, scale int, skipVec bool) error {
 	c := e.c
 	u := newUni(uniIdx)
 	wit := &witness{Kind: "case", Family: family, Universe: uniIdx, Scale: scale, Case: cs}
@@ -427,22 +453,11 @@ func (e *env) checkCase(family string, cs *Case, uniIdx, scale int) error {
 	for _, p := range cs.Proj {
 		req.Projs = append(req.Projs, p.Paths)
 	}
-	// Every modelled defect of the vector path is replayed on its first
-	// cases; beyond that only the writer, the metadata and the row reader
-	// are checked for such cases (each replay costs a crashed child).
-	e.mu.Lock()
-	for _, d := range cs.Defects {
-		if e.defect[d] >= defectReplays {
-			req.SkipVec = true
-		}
+	req.SkipVec = skipVec
+	{
+		key, _ := json.Marshal(cs.Seq)
+		req.Label = fmt.Sprintf("%s|%d|%s", family, scale, key)
 	}
-	for _, d := range cs.Defects {
-		e.defect[d]++
-	}
-	if req.SkipVec {
-		e.skipped++
-	}
-	e.mu.Unlock()
 	run := <-e.pool
 	defer func() { e.pool <- run }()
 	out, err := run.do(req)
@@ -457,13 +472,13 @@ func (e *env) checkCase(family string, cs *Case, uniIdx, scale int) error {
 		what := fmt.Sprintf("the process panics in stage %q for the sequence %v: %s", out.stage, req.Values, out.panic)
 		switch {
 		case out.stage == "vec" && known != "":
-			c.Violate(known, what, wit)
-		case strings.HasPrefix(out.stage, "proj") && known != "":
-			c.Violate(known, what, wit)
+			sk.Violate(c, known, what, wit)
+		case (strings.HasPrefix(out.stage, "proj") || strings.HasPrefix(out.stage, "warm")) && known != "":
+			sk.Violate(c, known, what, wit)
 		case strings.HasPrefix(out.stage, "proj") && e.partialAt(cs, out.stage):
-			c.Violate(sigPartial, what, wit)
+			sk.Violate(c, sigPartial, what, wit)
 		default:
-			c.Violate("crash:"+out.stage[:min(4, len(out.stage))]+":"+shape, what, wit)
+			sk.Violate(c, "crash:"+out.stage[:min(4, len(out.stage))]+":"+shape, what, wit)
 		}
 		return nil
 	}
@@ -475,13 +490,13 @@ func (e *env) checkCase(family string, cs *Case, uniIdx, scale int) error {
 		res.Vec = &readResult{Vals: res.In}
 		res.Proj = nil
 	}
-	if res.Row == nil || res.Vec == nil || (!req.SkipVec && len(res.Proj) != len(cs.Proj)) {
+	if res.Row == nil || res.Vec == nil || (!req.SkipVec && (len(res.Proj) != len(cs.Proj) || len(res.Warm) != len(cs.Proj))) {
 		b, _ := json.Marshal(res)
 		return fmt.Errorf("incomplete child response for %v: %s", req.Values, b)
 	}
 	// ---- oracle: both read paths return the input
 	if res.Row.Err != "" || strings.Join(res.Row.Vals, "\n") != strings.Join(res.In, "\n") {
-		c.Violate("row-reader:"+shape, fmt.Sprintf("vngio.NewReader returns %v (%s) for the written sequence %v", res.Row.Vals, res.Row.Err, res.In), wit)
+		sk.Violate(c, "row-reader:"+shape, fmt.Sprintf("vngio.NewReader returns %v (%s) for the written sequence %v", res.Row.Vals, res.Row.Err, res.In), wit)
 	}
 	vecOK := res.Vec.Err == "" && strings.Join(res.Vec.Vals, "\n") == strings.Join(res.In, "\n")
 	if !vecOK {
@@ -490,9 +505,9 @@ func (e *env) checkCase(family string, cs *Case, uniIdx, scale int) error {
 		}
 		what := fmt.Sprintf("vcache+vam materialize %v (%s) for the written sequence %v", res.Vec.Vals, res.Vec.Err, res.In)
 		if known != "" {
-			c.Violate(known, what, wit)
+			sk.Violate(c, known, what, wit)
 		} else {
-			c.Violate("vector-path:"+shape, what, wit)
+			sk.Violate(c, "vector-path:"+shape, what, wit)
 		}
 	}
 	// ---- oracle: projections return the data at their paths
@@ -515,34 +530,48 @@ func (e *env) checkCase(family string, cs *Case, uniIdx, scale int) error {
 		what := fmt.Sprintf("projection %v of %v yields %v (%s); data at those paths in the full read: %v", cs.Proj[pi].Paths, res.In, pr.Vals, pr.Err, full)
 		switch {
 		case known != "":
-			c.Violate(known, what, wit)
+			sk.Violate(c, known, what, wit)
 		case cs.Proj[pi].Partial:
-			c.Violate(sigPartial, what, wit)
+			sk.Violate(c, sigPartial, what, wit)
 		default:
-			c.Violate("projection:"+shape, what, wit)
+			sk.Violate(c, "projection:"+shape, what, wit)
+		}
+	}
+	// ---- oracle: the whole values read from the SAME cached object after a
+	// projection (what the vector cache does between queries) are the input
+	for pi, wr := range res.Warm {
+		if wr.Err == "" && strings.Join(wr.Vals, "\n") == strings.Join(res.In, "\n") {
+			continue
+		}
+		what := fmt.Sprintf("after projection %v on a cached object of %v, the full read of the same object yields %v (%s)", cs.Proj[pi].Paths, res.In, wr.Vals, wr.Err)
+		if known != "" {
+			sk.Violate(c, known, what, wit)
+		} else {
+			run.reset()
+			sk.Violate(c, "warm-object:full-read-after-projection:"+shape, what, wit)
 		}
 	}
 	// ---- binding: the spec's predictions
 	if scale == 1 {
 		if !eqInts(res.Row.Flat, cs.Row) {
-			e.drift("row reader: spec predicts %v, real %v for %v", cs.Row, res.Row.Flat, res.In)
+			sk.drift(e, "row reader: spec predicts %v, real %v for %v", cs.Row, res.Row.Flat, res.In)
 		}
 		// for cases with a modelled defect the spec predicts THAT the vector
 		// path fails, not the exact shape of the failure
 		if len(cs.Defects) == 0 && !req.SkipVec && !eqInts(res.Vec.Flat, cs.Vec) {
-			e.drift("vector path: spec predicts %v, real %v (%s) for %v", cs.Vec, res.Vec.Flat, res.Vec.Err, res.In)
+			sk.drift(e, "vector path: spec predicts %v, real %v (%s) for %v", cs.Vec, res.Vec.Flat, res.Vec.Err, res.In)
 		}
 		for pi, pr := range res.Proj {
 			want := cs.Proj[pi].Res
 			if len(cs.Defects) == 0 && !cs.Proj[pi].Partial && !eqInts(pr.Flat, want) {
-				e.drift("projection %v: spec predicts %v, real %v (%s) for %v", cs.Proj[pi].Paths, want, pr.Flat, pr.Err, res.In)
+				sk.drift(e, "projection %v: spec predicts %v, real %v (%s) for %v", cs.Proj[pi].Paths, want, pr.Flat, pr.Err, res.In)
 			}
 		}
 		if len(res.Meta) != len(cs.Cols) {
-			e.drift("metadata: spec predicts %d columns, real %d for %v", len(cs.Cols), len(res.Meta), res.In)
+			sk.drift(e, "metadata: spec predicts %d columns, real %d for %v", len(cs.Cols), len(res.Meta), res.In)
 		} else {
 			if !eqInts(res.Tags, cs.Tags) && len(cs.Cols) > 1 {
-				e.drift("type tags: spec %v real %v for %v", cs.Tags, res.Tags, res.In)
+				sk.drift(e, "type tags: spec %v real %v for %v", cs.Tags, res.Tags, res.In)
 			}
 			for j := range cs.Cols {
 				t := cs.Ty[cs.Types[j]-1]
@@ -552,7 +581,7 @@ func (e *env) checkCase(family string, cs *Case, uniIdx, scale int) error {
 					return k != "b" && k != ""
 				}, nil)
 				if !shapeEq(want, res.Meta[j]) {
-					e.drift("metadata of column %d: spec predicts %s, real %s for %v", j, shapeStr(want), shapeStr(res.Meta[j]), res.In)
+					sk.drift(e, "metadata of column %d: spec predicts %s, real %s for %v", j, shapeStr(want), shapeStr(res.Meta[j]), res.In)
 				}
 				shapeKinds(res.Meta[j], e.kinds)
 			}
@@ -628,10 +657,10 @@ type FCase struct {
 // ReadAt failure at the armed segment.  Oracle: a fetch returns an error
 // only when the injected failure was delivered in it, otherwise the written
 // sequence -- in particular the fetch after the failed one.
-func (e *env) checkFetchCase(family string, fc *FCase, uniIdx int) error {
+func (e *env) checkFetchCase(sk *sink, family string, fc *FCase, uniIdx int) error {
 	c := e.c
 	u := newUni(uniIdx)
-	req := &request{Universe: uniIdx, Ty: fc.Ty, Fetches: len(fc.Log), Arm: fc.Armed}
+	req := &request{Universe: uniIdx, Ty: fc.Ty, Fetches: len(fc.Log), Arm: fc.Armed, Label: fmt.Sprintf("fetch|%s|%d", family, fc.Armed)}
 	for _, el := range fc.Seq {
 		s, err := u.value(fc.Ty[el.T-1], el.D, u.unitTok)
 		if err != nil {
@@ -654,7 +683,7 @@ func (e *env) checkFetchCase(family string, fc *FCase, uniIdx int) error {
 		e.faulted++
 	}
 	if out.crashed {
-		c.Violate("fetch-after-io-fault:crash", fmt.Sprintf("fetching the cached object of %v again after a failed read of segment %d panics in stage %q: %s", req.Values, fc.Armed, out.stage, out.panic), wit)
+		sk.Violate(c, "fetch-after-io-fault:crash", fmt.Sprintf("fetching the cached object of %v again after a failed read of segment %d panics in stage %q: %s", req.Values, fc.Armed, out.stage, out.panic), wit)
 		return nil
 	}
 	res := out.res
@@ -669,21 +698,21 @@ func (e *env) checkFetchCase(family string, fc *FCase, uniIdx int) error {
 		switch {
 		case fr.Err != "" && !fr.Fired:
 			suspicious = true
-			c.Violate("fetch-after-io-fault:error-without-fault", fmt.Sprintf("fetch %d of the cached object of %v fails (%s) although no read failed in it (segment %d failed once earlier)", k+1, req.Values, fr.Err, fc.Armed), wit)
+			sk.Violate(c, "fetch-after-io-fault:error-without-fault", fmt.Sprintf("fetch %d of the cached object of %v fails (%s) although no read failed in it (segment %d failed once earlier)", k+1, req.Values, fr.Err, fc.Armed), wit)
 		case fr.Err == "" && fr.Fired:
 			suspicious = true
-			c.Violate("fetch-after-io-fault:error-swallowed", fmt.Sprintf("fetch %d of %v returns %v although the read of segment %d failed in it", k+1, req.Values, fr.Vals, fc.Armed), wit)
+			sk.Violate(c, "fetch-after-io-fault:error-swallowed", fmt.Sprintf("fetch %d of %v returns %v although the read of segment %d failed in it", k+1, req.Values, fr.Vals, fc.Armed), wit)
 		case fr.Err == "" && strings.Join(fr.Vals, "\n") != strings.Join(res.In, "\n"):
 			suspicious = true
-			c.Violate("fetch-after-io-fault:wrong-data", fmt.Sprintf("fetch %d of the cached object returns %v for the written sequence %v (the read of segment %d failed once in an earlier fetch)", k+1, fr.Vals, res.In, fc.Armed), wit)
+			sk.Violate(c, "fetch-after-io-fault:wrong-data", fmt.Sprintf("fetch %d of the cached object returns %v for the written sequence %v (the read of segment %d failed once in an earlier fetch)", k+1, fr.Vals, res.In, fc.Armed), wit)
 		}
 		// binding: which fetch fails and how many segments each one reads
 		if (fr.Err == "") != fc.Log[k].Ok || fr.Reads != fc.Log[k].Reads {
-			e.drift("cached fetch %d of %v with segment %d failing once: spec predicts ok=%v reads=%d, real ok=%v reads=%d (%s)", k+1, req.Values, fc.Armed, fc.Log[k].Ok, fc.Log[k].Reads, fr.Err == "", fr.Reads, fr.Err)
+			sk.drift(e, "cached fetch %d of %v with segment %d failing once: spec predicts ok=%v reads=%d, real ok=%v reads=%d (%s)", k+1, req.Values, fc.Armed, fc.Log[k].Ok, fc.Log[k].Reads, fr.Err == "", fr.Reads, fr.Err)
 		}
 	}
 	if res.NSegs != len(fc.Segs) {
-		e.drift("segments read by a fetch of %v: spec predicts %d, real %d", req.Values, len(fc.Segs), res.NSegs)
+		sk.drift(e, "segments read by a fetch of %v: spec predicts %d, real %d", req.Values, len(fc.Segs), res.NSegs)
 	}
 	if suspicious {
 		run.reset()
@@ -707,6 +736,12 @@ func parseFCases(res *core.TLCResult) ([]FCase, error) {
 		}
 		out = append(out, fc)
 	}
+	keys := make([]string, len(out))
+	for i := range out {
+		b, _ := json.Marshal(out[i].Seq)
+		keys[i] = fmt.Sprintf("%s|%03d", b, out[i].Armed)
+	}
+	sort.Sort(&byKey{keys: keys, swap: func(i, j int) { out[i], out[j] = out[j], out[i] }})
 	return out, nil
 }
 
@@ -734,7 +769,7 @@ func (e *env) boundary() error {
 	}
 	ds := []int{1, 2, 255, 256, 257, 300}
 	n := 0
-	var jobs []func() error
+	var jobs []func(sk *sink) error
 	for pi, p := range prims {
 		for _, d := range ds {
 			if p.eightbit && d > 256 {
@@ -744,8 +779,8 @@ func (e *env) boundary() error {
 				for wrap := 0; wrap < 3; wrap++ { // top level, record field, array elements
 					if !c.Quick() || (n+int(c.Seed))%3 == 0 || wrap == 0 {
 						pi, p, d, nullMode, wrap := pi, p, d, nullMode, wrap
-						jobs = append(jobs, func() error {
-							return e.boundaryCase(pi, p.typ, p.lit, p.eightbit, d, nullMode, wrap)
+						jobs = append(jobs, func(sk *sink) error {
+							return e.boundaryCase(sk, pi, p.typ, p.lit, p.eightbit, d, nullMode, wrap)
 						})
 					}
 					n++
@@ -756,7 +791,7 @@ func (e *env) boundary() error {
 	return runJobs(jobs, cap(e.pool))
 }
 
-func (e *env) boundaryCase(pi int, typ string, lit func(int) string, eightbit bool, d, nullMode, wrap int) error {
+func (e *env) boundaryCase(sk *sink, pi int, typ string, lit func(int) string, eightbit bool, d, nullMode, wrap int) error {
 	c := e.c
 	var lits []string
 	total := d + 7
@@ -791,7 +826,7 @@ func (e *env) boundaryCase(pi int, typ string, lit func(int) string, eightbit bo
 	case 2:
 		values = append(values, "["+strings.Join(lits, ",")+"](["+typ+"])", "[](["+typ+"])")
 	}
-	req := &request{ID: 2, Universe: 0, Values: values, Meta: true}
+	req := &request{ID: 2, Universe: 0, Values: values, Meta: true, Label: fmt.Sprintf("boundary|%s|%d|%d|%d", typ, d, nullMode, wrap)}
 	if paths != nil {
 		req.Projs = [][][]string{paths}
 	}
@@ -815,9 +850,9 @@ func (e *env) boundaryCase(pi int, typ string, lit func(int) string, eightbit bo
 	if out.crashed {
 		what := fmt.Sprintf("the process panics in stage %q for %d values of type %s with %d distinct values: %s", out.stage, len(lits), typ, d, out.panic)
 		if plainNet && (out.stage == "vec" || strings.HasPrefix(out.stage, "proj")) {
-			c.Violate(sigNetPlain, what, wit)
+			sk.Violate(c, sigNetPlain, what, wit)
 		} else {
-			c.Violate(fmt.Sprintf("crash:%s:boundary:%s:%s", out.stage[:min(4, len(out.stage))], typ, want), what, wit)
+			sk.Violate(c, fmt.Sprintf("crash:%s:boundary:%s:%s", out.stage[:min(4, len(out.stage))], typ, want), what, wit)
 		}
 		return nil
 	}
@@ -826,15 +861,15 @@ func (e *env) boundaryCase(pi int, typ string, lit func(int) string, eightbit bo
 		return fmt.Errorf("boundary %s: %s", key, res.Err)
 	}
 	if res.Row.Err != "" || strings.Join(res.Row.Vals, "\n") != strings.Join(res.In, "\n") {
-		c.Violate(fmt.Sprintf("row-reader:boundary:%s:%s", typ, want), fmt.Sprintf("vngio.NewReader does not return the %d written values of type %s with %d distinct values (%s)", len(res.In), typ, d, res.Row.Err), wit)
+		sk.Violate(c, fmt.Sprintf("row-reader:boundary:%s:%s", typ, want), fmt.Sprintf("vngio.NewReader does not return the %d written values of type %s with %d distinct values (%s)", len(res.In), typ, d, res.Row.Err), wit)
 	}
 	if res.Vec.Err != "" || strings.Join(res.Vec.Vals, "\n") != strings.Join(res.In, "\n") {
 		run.reset()
 		what := fmt.Sprintf("vcache+vam do not return the %d written values of type %s with %d distinct values (%s)", len(res.In), typ, d, res.Vec.Err)
 		if plainNet {
-			c.Violate(sigNetPlain, what, wit)
+			sk.Violate(c, sigNetPlain, what, wit)
 		} else {
-			c.Violate(fmt.Sprintf("vector-path:boundary:%s:%s", typ, want), what, wit)
+			sk.Violate(c, fmt.Sprintf("vector-path:boundary:%s:%s", typ, want), what, wit)
 		}
 	}
 	for pi, pr := range res.Proj {
@@ -846,16 +881,16 @@ func (e *env) boundaryCase(pi int, typ string, lit func(int) string, eightbit bo
 		if bad {
 			run.reset()
 			if plainNet {
-				c.Violate(sigNetPlain, "projection of a plain net column fails: "+pr.Err, wit)
+				sk.Violate(c, sigNetPlain, "projection of a plain net column fails: "+pr.Err, wit)
 			} else {
-				c.Violate(fmt.Sprintf("projection:boundary:%s:%s", typ, want), fmt.Sprintf("projection %v does not return the data at its path (%s)", paths, pr.Err), wit)
+				sk.Violate(c, fmt.Sprintf("projection:boundary:%s:%s", typ, want), fmt.Sprintf("projection %v does not return the data at its path (%s)", paths, pr.Err), wit)
 			}
 		}
 	}
 	// binding: the leaf's real encoding kind is the one the spec's rule gives
 	got := leafOf(res.Meta)
 	if got != want {
-		e.drift("encoding rule: %d distinct values of %s: spec (DictMax=256) says %s, real metadata has %s", d, typ, want, got)
+		sk.drift(e, "encoding rule: %d distinct values of %s: spec (DictMax=256) says %s, real metadata has %s", d, typ, want, got)
 	}
 	e.kinds["boundary-"+got]++
 	return nil
@@ -875,9 +910,15 @@ func (e *env) fixedCases() error {
 		{sigErrorNulls, []string{`null({e:error(string),a:int64})`, `{e:null,a:1}({e:error(string),a:int64})`}, nil},
 		{sigEnum, []string{`%x(enum(x,y))`, `%y(enum(x,y))`}, nil},
 		{sigPartial, []string{`{r:[{a:1,b:"x"}],c:1}({r:[{a:int64,b:string}],c:int64})`}, [][]string{{"r", "a"}}},
+		// a forked projection one leg of which continues below a record whose
+		// other columns have nulls of their own: dictionary-encoded sibling
+		// (the loader must not walk it without its nulls) and constant sibling
+		// (the full read of the same warm object must still see its nulls)
+		{"projection:forked-below-record-with-null-siblings", []string{`{id:1,a:{x:1,y:"p"}}`, `{id:2,a:{x:2,y:null(string)}}`, `{id:3,a:{x:3,y:"q"}}`}, [][]string{{"id"}, {"a", "x"}}},
+		{"projection:forked-below-record-with-null-siblings", []string{`{id:1,a:{x:1,y:"same"}}`, `{id:2,a:{x:2,y:null(string)}}`, `{id:3,a:{x:3,y:"same"}}`}, [][]string{{"id"}, {"a", "x"}}},
 	}
 	for i, fc := range cases {
-		req := &request{Values: fc.values}
+		req := &request{Values: fc.values, Label: fmt.Sprintf("fixed|%d", i)}
 		if fc.paths != nil {
 			req.Projs = [][][]string{fc.paths}
 		}
@@ -912,6 +953,12 @@ func (e *env) fixedCases() error {
 			}
 			if bad {
 				e.c.Violate(fc.sig, fmt.Sprintf("projection %v of %v yields %v (%s)", fc.paths, res.In, pr.Vals, pr.Err), wit)
+			}
+		}
+		for _, wr := range res.Warm {
+			if wr.Err != "" || strings.Join(wr.Vals, "\n") != strings.Join(res.In, "\n") {
+				run.reset()
+				e.c.Violate(fc.sig, fmt.Sprintf("after projection %v on a cached object of %v, the full read of the same object yields %v (%s)", fc.paths, res.In, wr.Vals, wr.Err), wit)
 			}
 		}
 	}
@@ -953,8 +1000,25 @@ func parseCases(res *core.TLCResult) ([]Case, error) {
 		}
 		out = append(out, cs)
 	}
+	// TLC's workers print in no particular order: fix one, so that sampling
+	// (scale 255, defect replays, evidence samples) is the same in every run
+	keys := make([]string, len(out))
+	for i := range out {
+		b, _ := json.Marshal(out[i].Seq)
+		keys[i] = string(b)
+	}
+	sort.Sort(&byKey{keys: keys, swap: func(i, j int) { out[i], out[j] = out[j], out[i] }})
 	return out, nil
 }
+
+type byKey struct {
+	keys []string
+	swap func(i, j int)
+}
+
+func (b *byKey) Len() int           { return len(b.keys) }
+func (b *byKey) Less(i, j int) bool { return b.keys[i] < b.keys[j] }
+func (b *byKey) Swap(i, j int)      { b.keys[i], b.keys[j] = b.keys[j], b.keys[i]; b.swap(i, j) }
 
 func run(c *core.Ctx) error {
 	c.Trust("TLC 1.8; the harness's instantiation of abstract values as ZSON literals (zson parser) and its projection of real values/metadata onto the spec's vocabulary; child-process isolation of panics")
@@ -1063,7 +1127,7 @@ func run(c *core.Ctx) error {
 	}
 	total, wide := 0, 0
 	var neg *Case
-	var jobs []func() error
+	var jobs []func(sk *sink) error
 	for i, f := range families {
 		for j := range outs[i].cases {
 			f, j := f, j
@@ -1073,8 +1137,25 @@ func run(c *core.Ctx) error {
 			if f == "arr" {
 				uni -= uni % 4 // int64 map keys: the normalized entry order is the token order
 			}
-			jobs = append(jobs, func() error {
-				if err := e.checkCase(f, cs, uni, 1); err != nil {
+			// Every modelled defect of the vector path is replayed on its first
+			// cases (in export order); beyond that only the writer, the metadata
+			// and the row reader are checked for such cases (each replay costs a
+			// crashed child).  Decided here, sequentially, so that the same cases
+			// are replayed in every run.
+			skip := false
+			for _, d := range cs.Defects {
+				if e.defect[d] >= defectReplays {
+					skip = true
+				}
+			}
+			for _, d := range cs.Defects {
+				e.defect[d]++
+			}
+			if skip {
+				e.skipped++
+			}
+			jobs = append(jobs, func(sk *sink) error {
+				if err := e.checkCase(sk, f, cs, uni, 1, skip); err != nil {
 					return err
 				}
 				c.Eval(f+"|1|"+string(key), len(cs.Seq) > 0)
@@ -1087,8 +1168,8 @@ func run(c *core.Ctx) error {
 				every = 16
 			}
 			if (j+int(c.Seed))%every == 0 && len(cs.Seq) > 0 {
-				jobs = append(jobs, func() error {
-					if err := e.checkCase(f, cs, uni, 255); err != nil {
+				jobs = append(jobs, func(sk *sink) error {
+					if err := e.checkCase(sk, f, cs, uni, 255, skip); err != nil {
 						return err
 					}
 					c.Eval(f+"|255|"+string(key), true)
@@ -1121,8 +1202,8 @@ func run(c *core.Ctx) error {
 			if fc.Armed > 0 && fc.Segs[fc.Armed-1] == 1 {
 				phase1++
 			}
-			jobs = append(jobs, func() error {
-				if err := e.checkFetchCase(f, fc, uni); err != nil {
+			jobs = append(jobs, func(sk *sink) error {
+				if err := e.checkFetchCase(sk, f, fc, uni); err != nil {
 					return err
 				}
 				c.Eval(fmt.Sprintf("%s|%s|%d", f, key, fc.Armed), fc.Armed > 0)
@@ -1155,6 +1236,11 @@ func run(c *core.Ctx) error {
 		late += r.late
 	}
 	c.Set("children_died_after_answering", late)
+	for _, r := range e.all {
+		for _, label := range r.lateOf {
+			c.Violate("crash:after-answer", "the child process died after answering the request "+label+" (a goroutine of the code under test panicked after the call had returned)", map[string]any{"kind": "late-death", "request": label})
+		}
+	}
 	c.Set("real_column_kinds_seen", e.kinds)
 	c.Set("cases_with_modelled_defect", e.defect)
 	c.Set("defect_cases_replayed_without_vector_path", e.skipped)
@@ -1176,7 +1262,9 @@ func run(c *core.Ctx) error {
 		bad.Row[len(bad.Row)-1]++
 		before := e.drifts
 		e.quiet = true
-		err := e.checkCase("negative-control", &bad, 0, 1)
+		nsk := &sink{}
+		err := e.checkCase(nsk, "negative-control", &bad, 0, 1, false)
+		nsk.flush()
 		e.quiet = false
 		if err != nil {
 			return err
@@ -1191,11 +1279,13 @@ func run(c *core.Ctx) error {
 	return nil
 }
 
-// runJobs runs the jobs on n goroutines and returns the first error.
-func runJobs(jobs []func() error, n int) error {
+// runJobs runs the jobs on n goroutines, then reports their verdicts in job
+// order, and returns the first error.
+func runJobs(jobs []func(sk *sink) error, n int) error {
 	var wg sync.WaitGroup
 	var mu sync.Mutex
 	var first error
+	sinks := make([]sink, len(jobs))
 	next := 0
 	for w := 0; w < n; w++ {
 		wg.Add(1)
@@ -1207,10 +1297,10 @@ func runJobs(jobs []func() error, n int) error {
 					mu.Unlock()
 					return
 				}
-				job := jobs[next]
+				k := next
 				next++
 				mu.Unlock()
-				if err := job(); err != nil {
+				if err := jobs[k](&sinks[k]); err != nil {
 					mu.Lock()
 					if first == nil {
 						first = err
@@ -1221,6 +1311,9 @@ func runJobs(jobs []func() error, n int) error {
 		}()
 	}
 	wg.Wait()
+	for k := range sinks {
+		sinks[k].flush()
+	}
 	return first
 }
 
@@ -1261,7 +1354,10 @@ func replay(e *env) error {
 		if scale == 0 {
 			scale = 1
 		}
-		return e.checkCase(w.Family, w.Case, w.Universe, scale)
+		rsk := &sink{}
+		err := e.checkCase(rsk, w.Family, w.Case, w.Universe, scale, false)
+		rsk.flush()
+		return err
 	case "boundary":
 		req := &request{ID: 3, Values: w.Values}
 		if w.Paths != nil {
